@@ -365,7 +365,8 @@ def main(argv):
             + (["one obligation per Kani harness on the real crate (all CBMC checks of the harness must succeed; bounds listed under 'bounded')"] if kinfo else []))),
         exhaustive=False,
     )
-    assumptions = TRUSTED_BASE + ["float rounding is not modelled: every 'up to rounding' clause of the property is outside this claim"]
+    assumptions = ((TRUSTED_BASE + ["float rounding is not modelled by the Verus route: every 'up to rounding' clause of the property is outside this claim"]) if info["units"] else []) \
+        + (KANI_TRUSTED + ["every harness listed under coverage.bounded holds only within its stated bound"] if kinfo else [])
     if pid == "C12":
         # bounded stand-in only (Kani on n = 2 over a dyadic grid + exhaustive native enumeration of the same grid): never "proof"
         assumptions = KANI_TRUSTED + ["BOUNDED: n = 2, entry grid -2..=2, divisions exact by construction; nothing is claimed for inputs that round, for n > 2, for the Jacobi eigen solver or nalgebra's decompositions"]
